@@ -406,6 +406,9 @@ def call_bound(E, b, args, kw, st, out, node):
             st2.assume(z3.ForAll([j], z3.Implies(z3.And(0 <= j, j < r.n), z3.Select(col, j) != x.t)))
             E.raise_(st2, "ValueError", out, node)
             return res
+        if m == "items" and not args:
+            # only an int-keyed dict modelled as a list (contract attribute dict_like) has .items(): (key, value) pairs in key order
+            return [(st, VTuple([VConst(("iter", "enumerate")), VTuple([r]), VDict({})]))]
         raise OutOfSubset("list method %s" % m)
     if isinstance(r, VCList):
         raise OutOfSubset("concrete list method %s" % m)
